@@ -462,7 +462,7 @@ pub fn eval_unit_name(
             },
             BinOpType::Add | BinOpType::Sub => {
                 let (left_unit, left) = eval_unit_name(ctx, &binop.left)?;
-                let (right_unit, _right) = eval_unit_name(ctx, &binop.right)?;
+                let (right_unit, right) = eval_unit_name(ctx, &binop.right)?;
 
                 if left_unit != right_unit {
                     return Err(QueryError::generic(
@@ -471,7 +471,12 @@ pub fn eval_unit_name(
                             .to_string(),
                     ));
                 }
-                Ok((left_unit, left))
+                let value = if binop.op == BinOpType::Add {
+                    &left + &right
+                } else {
+                    &left - &right
+                };
+                Ok((left_unit, value))
             }
             BinOpType::Frac => {
                 let (left_unit, left) = eval_unit_name(ctx, &binop.left)?;
@@ -524,18 +529,21 @@ pub fn eval_unit_name(
             BinOpType::ShiftR => todo!(),
             BinOpType::Mod => {
                 let (left_unit, left) = eval_unit_name(ctx, &binop.left)?;
-                let (right_unit, _right) = eval_unit_name(ctx, &binop.right)?;
+                let (right_unit, right) = eval_unit_name(ctx, &binop.right)?;
 
                 if left_unit != right_unit {
                     return Err(QueryError::generic(
                         "Modulo of values with differing dimensions is not meaningful".to_string(),
                     ));
                 }
-                Ok((left_unit, left))
+                let value = Number::new(left)
+                    .rem(&Number::new(right))
+                    .map_err(QueryError::generic)?;
+                Ok((left_unit, value.value))
             }
             BinOpType::And | BinOpType::Or | BinOpType::Xor => {
                 let (left_unit, left) = eval_unit_name(ctx, &binop.left)?;
-                let (right_unit, _right) = eval_unit_name(ctx, &binop.right)?;
+                let (right_unit, right) = eval_unit_name(ctx, &binop.right)?;
 
                 if !left_unit.is_empty() || !right_unit.is_empty() {
                     return Err(QueryError::generic(format!(
@@ -543,7 +551,14 @@ pub fn eval_unit_name(
                         binop.op
                     )));
                 }
-                Ok((left_unit, left))
+                let (left, right) = (Number::new(left), Number::new(right));
+                let value = match binop.op {
+                    BinOpType::And => left.and(&right),
+                    BinOpType::Or => left.or(&right),
+                    _ => left.xor(&right),
+                }
+                .map_err(QueryError::generic)?;
+                Ok((left_unit, value.value))
             }
         },
         Expr::Mul { ref exprs } => {
